@@ -276,6 +276,16 @@ Definition get_lineno_chain (node : dnode) (ancs : list dnode) : Z :=
   get_lineno (n_line node)
              (option_map (fun a => (n_line a, newlines_before (n_raw a) (n_raw node))) (first_with_line ancs)).
 
+(* An attribute documented by a field (@ivar x: ...) of its class docstring: extract_fields stores the field body as the
+   attribute's parsed_docstring.  When it is rendered, epydoc2stan.ensure_parsed_docstring picks the object whose line base
+   the reports use:
+        doc, source = model.get_docstring(obj)          # the attribute's OWN docstring, if it has one
+        if source is None and parsed_doc is not None:   # "a split field is documented by its parent"
+            source = obj.parent
+   so the base is the class docstring only when the attribute has no docstring of its own (0 = none). *)
+Definition split_field_source_lineno (attr_own_docstring_lineno class_docstring_lineno : Z) : Z :=
+  if attr_own_docstring_lineno =? 0 then class_docstring_lineno else attr_own_docstring_lineno.
+
 (* linker._EpydocLinker._resolve_identifier_xref: reporting_obj.report(message, 'resolve_identifier_xref', lineno) *)
 Definition xref_report (verbosity : Z) (st : sys_state) (reporting_obj : obj) (message : text) (lineno : Z)
   : sys_state :=
